@@ -79,6 +79,7 @@ func safeLoad(repo, verif string) (p *Prog, err error) {
 		return nil, err
 	}
 	p.buildGuards()
+	p.registerModuleFields()
 	return p, nil
 }
 
